@@ -274,6 +274,10 @@ def read_back(data, kind, world, name, ctx_name, ctx_engine, tag, rid, f1, f2, v
                 return "msgMaxSize %r below the RFC 3412 minimum" % (msg.max_size,)
             if msg.flags % 4 != level:
                 return "msgFlags %r do not state level %d" % (msg.flags, level)
+            if msg.flags // 8 != 0:
+                return "reserved msgFlags bits set: %r" % (msg.flags,)
+            if ((msg.flags // 4) % 2 == 1) != (tag in (ber.P_GET, ber.P_GETNEXT, ber.P_BULK, ber.P_SET, ber.P_INFORM)):
+                return "reportable flag %r on a PDU with tag %#x (RFC 3412 6.4: set exactly for confirmed-class PDUs)" % (msg.flags, tag)
             eng = world.engine
             if (msg.usm.engine_id, msg.usm.user) != (eng.engine_id, user.name):
                 return "USM engine id / user %r %r" % (msg.usm.engine_id, msg.usm.user)
